@@ -7,7 +7,7 @@
    member of the batch, in order, receive non-blocking until EWOULDBLOCK (batch moves on) or until
    end-of-file with an empty queue (report ChannelClosed(id), remove and close the member).
    The scheduler is an arbitrary list of labels: sender steps interleave with the library's steps at the
-   granularity of single system calls. *)
+   granularity of single system calls.  Senders may die in the middle of a multi-fragment message (parameter `tornp`). *)
 From Coq Require Import List Arith Bool.
 Import ListNotations.
 
@@ -69,6 +69,18 @@ Definition upd_chan (s : st) (c : cid) (v : chanst) (r : list mid) : st :=
   {| chans := set_nth (chans s) c v; members := members s; ready := r; nextid := nextid s; where_ := where_ s;
      log := log s; added := added s; ever := ever s |}.
 
+(* Messages a crashed sender left unfinished ("torn": the first fragment is queued on the channel, the rest never comes and the dedicated
+   fragment socket is at end-of-file).  The free function recv() drops such a message and reads again IN THE SAME CALL, so a
+   non-blocking receive behaves as if the torn messages at the head of the queue were not there: it returns the first complete
+   message behind them, or EWOULDBLOCK, or - when every sender is gone - the closure.  Which messages are torn is a parameter
+   (decided by the scheduler / the crash); to the kernel they are ordinary packets: they make the descriptor readable. *)
+Section WithTorn.
+Variable tornp : nat -> bool.
+
+Fixpoint strip (l : list nat) : list nat :=
+  match l with x :: r => if tornp x then strip r else l | [] => [] end.
+Definition good (l : list nat) : list nat := filter (fun x => negb (tornp x)) l.
+
 Definition step (s : st) (l : label) : option st :=
   match l with
   | LNewChan =>
@@ -116,21 +128,24 @@ Definition step (s : st) (l : label) : option st :=
       | Draining (m :: rest) acc =>
           match lookup (members s) m with
           | Some c =>
-              let ch := get s c in
+              let ch0 := get s c in
+              (* torn messages at the head are consumed and dropped by this very call *)
+              let ch := {| queue := strip (queue ch0); hup := hup ch0; sent := sent ch0 |} in
+              let chs := set_nth (chans s) c ch in
               match queue ch with
               | x :: q' =>
-                  Some {| chans := set_nth (chans s) c {| queue := q'; hup := hup ch; sent := sent ch |};
+                  Some {| chans := set_nth chs c {| queue := q'; hup := hup ch; sent := sent ch |};
                           members := members s; ready := ready s; nextid := nextid s;
                           where_ := Draining (m :: rest) (acc ++ [EvMsg m x]); log := log s; added := added s; ever := ever s |}
               | [] =>
                   if hup ch then
                     (* end of file: report closure, forget the member (deregister + close) *)
-                    Some {| chans := chans s; members := filter (fun e => negb (Nat.eqb (fst e) m)) (members s);
+                    Some {| chans := chs; members := filter (fun e => negb (Nat.eqb (fst e) m)) (members s);
                             ready := filter (fun x => negb (Nat.eqb x m)) (ready s); nextid := nextid s;
                             where_ := Draining rest (acc ++ [EvClosed m]); log := log s; added := added s; ever := ever s |}
                   else
                     (* EWOULDBLOCK: this member is drained, go on with the next one of the batch *)
-                    Some {| chans := chans s; members := members s; ready := ready s; nextid := nextid s;
+                    Some {| chans := chs; members := members s; ready := ready s; nextid := nextid s;
                             where_ := Draining rest acc; log := log s; added := added s; ever := ever s |}
               end
           | None => None                 (* "Got event for unknown token." *)
@@ -148,6 +163,8 @@ Definition step (s : st) (l : label) : option st :=
 
 Fixpoint run (s : st) (ls : list label) : option st :=
   match ls with [] => Some s | l :: r => match step s l with Some s' => run s' r | None => None end end.
+
+End WithTorn.
 
 Definition init : st :=
   {| chans := []; members := []; ready := []; nextid := 0; where_ := Idle; log := []; added := []; ever := [] |}.
